@@ -202,6 +202,12 @@ class Application:
                 request, returns `None` immediately without waiting.
 
         """
+        if not message.header.is_request:
+            # an answer is not routed like a request (to the least used peer
+            # of the realm): it goes back on the connection that its request
+            # came from, or nowhere
+            self.send_answer(message)
+            return None
         if not message.header.end_to_end_identifier:
             message.header.end_to_end_identifier = self.node.end_to_end_seq.next_sequence()
         if not message.header.application_id:
